@@ -116,6 +116,7 @@ type heapDecl struct {
 }
 
 type Enc struct {
+	allocOverride string
 	m        *Model
 	top      *ssa.Function
 	topName  string
@@ -412,12 +413,12 @@ func (e *Enc) typeAssume(st *State, v string, t types.Type) string {
 			return fmt.Sprintf("(<= (slen %s) 4611686018427387904)", v)
 		}
 	case *types.Slice:
-		return fmt.Sprintf("(and (<= 0 (sl_off %s)) (<= 0 (sl_len %s)) (<= (sl_len %s) (sl_cap %s)) (<= (sl_cap %s) 4611686018427387904) (< (rootid (sl_base %s)) %s) (=> (= (sl_base %s) Nil) (= (sl_cap %s) 0)))", v, v, v, v, v, v, e.ghostGet(st, "$alloc"), v, v)
+		return fmt.Sprintf("(and (<= 0 (sl_off %s)) (<= 0 (sl_len %s)) (<= (sl_len %s) (sl_cap %s)) (<= (sl_cap %s) 4611686018427387904) (< (rootid (sl_base %s)) %s) (=> (= (sl_base %s) Nil) (= (sl_cap %s) 0)))", v, v, v, v, v, v, e.allocBound(st), v, v)
 	case *types.Pointer, *types.Map:
 		if e.m.noElemPtrs {
-			return fmt.Sprintf("(and (< (rootid %s) %s) (not (inelem %s)))", v, e.ghostGet(st, "$alloc"), v)
+			return fmt.Sprintf("(and (< (rootid %s) %s) (not (inelem %s)))", v, e.allocBound(st), v)
 		}
-		return fmt.Sprintf("(< (rootid %s) %s)", v, e.ghostGet(st, "$alloc"))
+		return fmt.Sprintf("(< (rootid %s) %s)", v, e.allocBound(st))
 	case *types.Struct:
 		si := e.m.structOf(t)
 		if si == nil {
@@ -1225,4 +1226,23 @@ func (e *Enc) havocEffects(st *State, eff *Effects, guard string) {
 			e.assume(guard, fmt.Sprintf("(<= %s %s)", old, st.ghost[g]))
 		}
 	}
+}
+
+// allocBound is the allocation counter that bounds values read from the heap: the current one, or the
+// entry counter while a value is being read from a heap array nobody has written since entry
+// (see withEntryAlloc), so that such a value is known not to be fresh.
+func (e *Enc) allocBound(st *State) string {
+	if e.allocOverride != "" {
+		return e.allocOverride
+	}
+	return e.ghostGet(st, "$alloc")
+}
+
+// typeAssumeFrom is typeAssume for a value just read from the heap array term arr.
+func (e *Enc) typeAssumeFrom(st *State, arr, v string, t types.Type) string {
+	if strings.HasSuffix(arr, "@in") {
+		e.allocOverride = "$alloc@in"
+		defer func() { e.allocOverride = "" }()
+	}
+	return e.typeAssume(st, v, t)
 }
